@@ -76,7 +76,10 @@ impl Octree {
     ) -> Option<Self> {
         let shape = b.shape();
         let vars = b.vars();
-        if let Some(threads) = settings.threads {
+        // A depth-0 octree is a single cell: there is nothing to pre-split
+        // into per-thread tasks (every task needs a parent cell to be merged
+        // into), so it is built on the calling thread.
+        if let Some(threads) = settings.threads.filter(|_| settings.depth > 0) {
             Self::build_inner_mt(shape, settings, vars, threads)
         } else {
             let mut eval = RenderHandle::new(shape.clone());
